@@ -2,6 +2,7 @@ import Driver.Common
 import Lumina.Model.Util
 import Lumina.Model.Crash
 import Lumina.Model.CrashStore
+import Lumina.Model.RedbCommit
 import Lumina.Spec.C22
 
 /-
@@ -15,7 +16,10 @@ import Lumina.Spec.C22
     crash ep=<sync epoch> k=<events of that epoch issued> mask=<all|none|hdr|nohdr|last|butlast|seed> n=<ops returned> sig=<log signature> vis=<0|1>
     crash0 ep= k= mask= sig= out=<ok|invalid>      (crash inside redb's Database::create, before RedbStore::new: out of scope, specskip)
 
-  Results:  ok <dump> | err <Kind> <dump> | reopen ok <dump> api=ok | reopen err <why>
+  Results:  ok <dump> tr=<shape> | err <Kind> <dump> tr=<shape> | reopen ok <dump> api=ok | reopen err <why>
+  shape  :  the backend write/sync trace of the operation as the redb commit-protocol model
+            (`Model/RedbCommit.lean`, S5) prescribes it: `PHS` = data pages and ONE header write,
+            then one `sync_data` (one-phase commit); `-` = nothing (aborted transaction)
   dump   :  ver=<3|none> id=<none|id1|idnew> hdr=<h:name^parent,…|_> hts=<name:h,…|_> st=<R> sa=<R> pr=<R> meta=<h:c.c,…|_>
   R      :  a-b.c-d | _
 
@@ -129,6 +133,20 @@ def opOfLine (ws : List String) : Option (Op St Err) :=
   | "remove" :: _ => (natArg? ws "h").map removeTx
   | _ => none
 
+/-- S5: the backend trace the commit-protocol model prescribes for one durable commit, as far as
+    the harness can see it.  Per sync epoch of `RedbCommit.commitEpochs`: `P` if it has page
+    writes, `H` if it has header-region writes (redb's ONE 320-byte header write is the model's
+    three region writes; the write buffer coalesces the two header versions of a one-phase
+    commit into the last one), then `S` (the `sync_data`). -/
+def commitShape (twoPhase : Bool) : String :=
+  let H : Lumina.Model.RedbCommit.Sums Unit Unit := ⟨fun _ => (), fun _ _ => ()⟩
+  let d : Lumina.Model.RedbCommit.Disk Unit Unit :=
+    { primary := false, twoPhase := false, slots := fun _ => ⟨0, [], ()⟩, pages := fun _ => ⟨(), []⟩ }
+  let pl : Lumina.Model.RedbCommit.Plan Unit Unit := { pages := [(1, ⟨(), []⟩)], roots := [], txid := 1 }
+  String.join ((Lumina.Model.RedbCommit.commitEpochs H d pl twoPhase).map fun ep =>
+    let ks := ep.map Lumina.Model.RedbCommit.Write.kind
+    (if ks.contains .page then "P" else "") ++ (if ks.contains .header then "H" else "") ++ "S")
+
 /-- what a store reopened on the state after a prefix shows: `RedbStore::new` runs its
     transaction on it -/
 def reopened (s : St) : St := applyOp s (openTx idNew)
@@ -157,9 +175,12 @@ def step (ds : DS) (line : String) : DS × String :=
     | some op =>
       -- ONE write transaction on the (ideal) backend: this is `Crash.writeTx`
       let (cur', res) := writeTx (idealBackend St) ds.cur op
+      -- `open` runs redb's `Database::create` as well: no trace shape for it.  lumina never
+      -- asks for a two-phase commit; an aborted transaction writes nothing.
+      let isOpen := ws.head? == some "open"
       let out := match res with
-        | .ok () => s!"ok {showSt cur'}"
-        | .error e => s!"err {e.kind} {showSt cur'}"
+        | .ok () => if isOpen then s!"ok {showSt cur'}" else s!"ok {showSt cur'} tr={commitShape false}"
+        | .error e => if isOpen then s!"err {e.kind} {showSt cur'}" else s!"err {e.kind} {showSt cur'} tr=-"
       ({ states := ds.states ++ [cur'], cur := cur' }, out)
 
 def spec (ds : DS) (op : String) (obs : String) : String :=
